@@ -41,7 +41,7 @@ UNARY_UF = {"sin", "cos", "tanh", "exp", "log", "sqrt", "logistic", "erf", "log1
 UNARY_UF |= {f"phi{k}" for k in range(8)} | {f"psi{j}_{k}" for j in range(6) for k in range(6)}
 MOVE = {"broadcast_in_dim", "concatenate", "pad", "reshape", "slice", "squeeze", "expand_dims", "transpose",
         "split", "rev", "gather", "dynamic_slice", "dynamic_update_slice", "scatter", "copy", "copy_p",
-        "stack", "unstack"}
+        "stack", "unstack", "tile"}
 CALLS = {"pjit", "jit", "closed_call", "core_call", "remat", "checkpoint", "custom_jvp_call", "custom_vjp_call",
          "custom_vjp_call_jaxpr", "custom_lin"}
 
